@@ -619,17 +619,28 @@ class ProvRDFSerializer(Serializer):
                 pred_new = pred
                 if pred in predicate_mapper:
                     pred_new = predicate_mapper[pred]
-                if ids[id] == PROV_COMMUNICATION and "activity" in str(pred_new):
+                # the PROV predicates are matched exactly: a user attribute
+                # whose URI merely contains "activity", "agent", "entity",
+                # "qualified" or "asInBundle" is an ordinary attribute
+                pred_uri = (
+                    pred_new.uri
+                    if isinstance(pred_new, pm.QualifiedName)
+                    else str(pred_new)
+                )
+                is_activity = pred_uri == PROV["activity"].uri
+                is_agent = pred_uri == PROV["agent"].uri
+                is_entity = pred_uri == PROV["entity"].uri
+                if ids[id] == PROV_COMMUNICATION and is_activity:
                     pred_new = PROV_ATTR_INFORMANT
-                if ids[id] == PROV_DELEGATION and "agent" in str(pred_new):
+                if ids[id] == PROV_DELEGATION and is_agent:
                     pred_new = PROV_ATTR_RESPONSIBLE
-                if ids[id] in [PROV_END, PROV_START] and "entity" in str(pred_new):
+                if ids[id] in [PROV_END, PROV_START] and is_entity:
                     pred_new = PROV_ATTR_TRIGGER
-                if ids[id] in [PROV_END] and "activity" in str(pred_new):
+                if ids[id] in [PROV_END] and is_activity:
                     pred_new = PROV_ATTR_ENDER
-                if ids[id] in [PROV_START] and "activity" in str(pred_new):
+                if ids[id] in [PROV_START] and is_activity:
                     pred_new = PROV_ATTR_STARTER
-                if ids[id] == PROV_DERIVATION and "entity" in str(pred_new):
+                if ids[id] == PROV_DERIVATION and is_entity:
                     pred_new = PROV_ATTR_USED_ENTITY
                 if str(pred_new) in [val.uri for val in formal_attributes[id]]:
                     qname_key = self.valid_identifier(pred_new)
@@ -638,13 +649,14 @@ class ProvRDFSerializer(Serializer):
                     if len(unique_sets[id][qname_key]) > 1:
                         formal_attributes[id][qname_key] = None
                 else:
-                    if "qualified" not in str(pred_new) and "asInBundle" not in str(
-                        pred_new
+                    if (
+                        not pred_uri.startswith(PROV["qualified"].uri)
+                        and pred_uri != PROV["asInBundle"].uri
                     ):
                         other_attributes[id].append((str(pred_new), obj1))
             local_key = str(obj)
             if local_key in ids:
-                if "qualified" in pred:
+                if str(pred).startswith(PROV["qualified"].uri):
                     formal_attributes[local_key][
                         list(formal_attributes[local_key].keys())[0]
                     ] = id
